@@ -61,6 +61,23 @@ Fixpoint send (ls lastlf : bool) (chunks : list (list N)) : list N :=
 (** everything the client writes between the 354 reply and the end of the transfer *)
 Definition client_wire (chunks : list (list N)) : list N := send true false chunks.
 
+(** several messages over one connection: the client object keeps _dataLineStart between messages;
+    smtpState_data sets it at the start of every transfer.  [send_st] = [send] that also returns the
+    flag left behind; [session_wires ls msgs] = the DATA-phase bytes of each message, [ls] being the
+    flag before the first one *)
+Fixpoint send_st (ls lastlf : bool) (chunks : list (list N)) : list N * bool :=
+  match chunks with
+  | [] => ((if lastlf then [DOT; CR; LF] else [CR; LF; DOT; CR; LF]), ls)
+  | c :: r =>
+      let '(ls', out) := transform ls c in
+      let '(w, lsf) := send_st ls' (ends_lf out) r in (out ++ w, lsf)
+  end.
+Fixpoint session_wires (ls : bool) (msgs : list (list (list N))) : list (list N) :=
+  match msgs with
+  | [] => []
+  | cs :: r => let '(w, ls') := send_st true false cs in w :: session_wires ls' r
+  end.
+
 (** the same with the pinned transformChunk (for the F13 witness) *)
 Fixpoint old_send (lastlf : bool) (chunks : list (list N)) : list N :=
   match chunks with
